@@ -690,8 +690,16 @@ def r8_pickle(rep, ctx):
     res = Resolver(m, red)
     cfg = CFG(red.node)
     rets = cfg.returns()
+    extra = []
     if len(rets) != 1:
-        raise AnalysisError("Quantity.__reduce__: expected one return")
+        # besides the return of (callable, (state list,)) there may be early returns of (callable, (arg, ...)): judged below
+        def _std(v_):
+            return isinstance(v_, ast.Tuple) and len(v_.elts) == 2 and isinstance(v_.elts[1], ast.Tuple) and len(v_.elts[1].elts) == 1 and isinstance(v_.elts[1].elts[0], ast.Name)
+        std = [r_ for r_ in rets if _std(cfg.ast[r_].value)]
+        if len(std) != 1:
+            raise AnalysisError("Quantity.__reduce__: expected one return")
+        extra = [r_ for r_ in rets if r_ not in std]
+        rets = std
     rv = cfg.ast[rets[0]].value
     if not (isinstance(rv, ast.Tuple) and len(rv.elts) == 2):
         raise AnalysisError("Quantity.__reduce__: return is not (callable, args)")
@@ -738,6 +746,18 @@ def r8_pickle(rep, ctx):
                 return True
         return False
 
+    for r_ in extra:
+        # an early return that rebuilds straight through the interning function: the caption takes part in equality, so
+        # it must be among the arguments unless the caption is known to be empty on that path
+        v_ = cfg.ast[r_].value
+        if not (isinstance(v_, ast.Tuple) and len(v_.elts) == 2 and isinstance(v_.elts[0], ast.Name) and isinstance(v_.elts[1], ast.Tuple)):
+            raise AnalysisError("Quantity.__reduce__: an early return is not (callable, (args...))")
+        if any(_mentions_caption(res, a_) for a_ in v_.elts[1].elts) or v_.elts[0].id != "ObtainQuantity":
+            raise AnalysisError("Quantity.__reduce__: early return through `%s` with its own arguments: not judged" % v_.elts[0].id)
+        rep.check(caption_empty(nfacts(cfg, r_)), "C07.R8", "Quantity.__reduce__:early-return-caption",
+                  "the early return leaves the caption out only where the caption is empty",
+                  "Quantity.__reduce__ returns `%s` without the unknown-unit caption on a path where the caption was not found to be empty: a captioned quantity is unpickled as a different (unequal) one" % norm(ast.unparse(v_))[:80],
+                  node=cfg.ast[r_], fn=red)
     for a_ in appends:
         arg = cfg.ast[a_].value.args[0]
         for st_, t_ in res.origins(arg):
